@@ -4,7 +4,7 @@ import importlib, sys
 sys.path.insert(0, '/verif')
 from hyverif import core
 bad = 0
-only = [a.lower() for a in sys.argv[1:]]
+only = [x.lower() for a in sys.argv[1:] for x in a.split(',')]
 for i in range(1, 42):
     p = f"c{i:02d}"
     if only and p not in only:
@@ -16,15 +16,18 @@ for i in range(1, 42):
     s = core.Src('/repo', canon=bool(getattr(m, "CANON", False)))
     ctx = core.Ctx(p.upper(), lenient=bool(getattr(m, "CANON", False)) and getattr(m, "LENIENT", True))
     ctx.strict_rules = set(getattr(m, "STRICT", ()))
+    ctx.src = s
     try:
-        m.check(ctx, s)
+        core.run_check(m, ctx, s)
     except core.Unresolved as e:
         print(p, "NEED:", e); bad += 1
     except core.AnalysisError as e:
         print(p, "AERR:", e); bad += 1
+    except Exception as e:
+        import traceback; traceback.print_exc(); print(p, "EXC:", e); bad += 1
     for u in ctx.unresolved:
-        if u["why"].startswith("construct not recognised"):
-            print(p, u["rule"], u["key"][:110], "::", u["why"][26:120]); bad += 1
+        if u["why"].startswith(("construct not recognised", "skipped", "only ")) or u["rule"] == "NEED":
+            print(p, u["rule"], u["key"][:110], "::", u["why"][:120]); bad += 1
     for f in ctx.findings:
         if f.ident() not in core.known_for(p.upper()):
             print(p, "FINDING", f.ident()[:140]); bad += 1
